@@ -662,7 +662,14 @@ class ExprMixin:
                     got = [(s2, RecSlot(ref, attr) if v is None else v) for s2, v in got]
                 out.extend(got)
             elif kind == "property":
-                out.extend(self.call_function(s, r[1], [ref], {}, node))
+                # property getters of repo classes are executed (inlined) unless a contract abstracts them: treating a
+                # one-line getter as an unknown call would havoc the heap and lose the proof for no reason
+                fget = loader.unwrap(r[1])
+                if loader.func_key(fget) not in self.contracts and self.in_repo(fget) and \
+                        len(self.frames) <= self.max_inline_depth:
+                    out.extend(self.call_function_inline(s, fget, [ref], {}, node))
+                else:
+                    out.extend(self.call_function(s, r[1], [ref], {}, node))
             elif kind == "method":
                 out.append((s, BoundMethod(r[1], ref)))
             elif kind == "classmethod":
